@@ -155,6 +155,10 @@ var pauseProgramsFmt = []string{
 	"S:1:E,1,11:2:0:%d:0 S:2:R,1,3:3:0:0:0 O:dpause=2,retry=1000,stamp=1",
 	// two processes failing with the SAME error text on one run: counted per process
 	"S:1:F,2,11,R,1,2:2:0:%[1]d:0 S:2:F,2,11,R,1,3:3:0:%[1]d:0 S:3:F,1,11,R,1,4:4:0:%[1]d:0 O:retry=-1",
+	// two timeouts on one status, the count configured on the FIRST AddTimeout only (the options belong to the status: a later
+	// AddTimeout without options leaves them alone), without and with a workflow default
+	"S:1:R,1,2:2:0:0:0 T:2:10:E,1,13:3:%d T:2:100000:R,1,4:4:0 O:retry=-1",
+	"S:1:R,1,2:2:0:0:0 T:2:10:E,1,13:3:%d T:2:100000:R,1,4:4:0 O:dpause=4,retry=-1",
 }
 
 var badReturnPrograms = []prog{
@@ -322,6 +326,7 @@ func genEngine(p *params, emit func(string, bool)) {
 		genReturns(p, emit)
 		genFaults(p, emit, 0.25)
 		genControl(p, prop, emit)
+		genStartingPoints(p, emit)
 	default: // C01 C05 C06 C07 C11 and the unprojected self-test
 		genFaults(p, emit, 1.0)
 	}
@@ -511,6 +516,18 @@ func genControl(p *params, prop string, emit func(string, bool)) {
 			singleFaultsAt(pr, h, rec, emit, func(op, kind string) bool {
 				return strings.HasPrefix(op, "st:") && (strings.Contains(op, "/h") || strings.HasSuffix(op, "/d") || strings.HasSuffix(op, "/r")) &&
 					(kind == "LK" || kind == "AK" || kind == "ST")
+			})
+		}
+		// a step that pauses / cancels its own run under an error count, with every single fault at the controller's write: a
+		// write that took effect although its call returned an error leaves the run stopped — the error-count pause that the
+		// returned error then triggers must not write over it
+		if pr.name == "ctl-stepctl" {
+			pc := mkProg("ctl-stepctl-count", "S:1:B,P,1,X,1:2:0:1:0 S:2:R,1,3:3:0:0:0 H:3:0 H:4:0 D:1 O:retry=-1,stamp=1")
+			h := []string{"tr:1:0:4", "tr:2:0:7"}
+			h = append(h, pc.rounds(4)...)
+			rec := pc.rounds(4)
+			singleFaultsAt(pc, h, rec, emit, func(op, kind string) bool {
+				return strings.HasPrefix(op, "st:") && strings.Contains(op, "/s1.") && (kind == "ST" || kind == "LK")
 			})
 		}
 		// late-joining hook consumers: the hook processes get their roles only after the run has been paused, resumed and
@@ -760,6 +777,40 @@ func genTriggers(p *params, emit func(string, bool)) {
 		}
 		if r.Intn(3) == 0 {
 			ops = randomFaultRun(r, pr, ops, 1+r.Intn(2))
+		}
+		emit(scenario(pr, ops), true)
+	}
+}
+
+// runs created at a starting status other than the default one, paused / cancelled / resumed before their first step: the first
+// write of a run (and the controller writes that copy its metadata) must describe the status the run was created at
+func genStartingPoints(p *params, emit func(string, bool)) {
+	r := p.rng
+	pr := mkProg("startpt", "S:1:R,1,2:2:0:0:0 C:2:R,1,3:3 S:3:R,1,4:4:0:0:0 D:0")
+	for _, start := range []int{0, 1, 2, 3, 4} {
+		emit(scenario(pr, append([]string{fmt.Sprintf("tr:1:%d:3", start)}, pr.rounds(3)...)), true)
+		for _, act := range []int{0, 2} {
+			ops := []string{fmt.Sprintf("tr:1:%d:5", start), fmt.Sprintf("ct:1:%d", act)}
+			ops = append(ops, pr.rounds(1)...)
+			ops = append(ops, "ct:1:1", "cb:1:2")
+			ops = append(ops, pr.rounds(3)...)
+			emit(scenario(pr, ops), true)
+		}
+	}
+	for i := 0; i < p.pick(60, 1500); i++ {
+		var ops []string
+		n := 6 + r.Intn(14)
+		for j := 0; j < n; j++ {
+			switch r.Intn(8) {
+			case 0, 1, 2:
+				ops = append(ops, fmt.Sprintf("tr:%d:%d:%d", 1+r.Intn(3), []int{0, 1, 2, 3, 4}[r.Intn(5)], r.Intn(9)))
+			case 3:
+				ops = append(ops, fmt.Sprintf("cb:%d:2", 1+r.Intn(3)))
+			case 4, 5:
+				ops = append(ops, fmt.Sprintf("ct:%d:%d", 1+r.Intn(4), r.Intn(4)))
+			default:
+				ops = append(ops, permuteRounds(r, pr, 1+r.Intn(2))...)
+			}
 		}
 		emit(scenario(pr, ops), true)
 	}
